@@ -270,11 +270,11 @@ func routesTemplates() []tmpl {
 func nameOf(family string, d []int) string { return dimIndex[family+fmt.Sprint(d)] }
 
 // reducible dimensions per family: the carrier (carry dim 0) / the callee (args dim 0) is what a
-// finding is about and has no "simpler" value, capture templates are each a feature of their own;
+// finding is about and has no "simpler" value;
 // every other dimension is ordered from simplest (index 0) upwards.
 func reducible(family string, dim int) bool {
 	switch family {
-	case "routes":
+	case "routes", "capture":
 		return true
 	case "carry", "args":
 		return dim == 1
